@@ -108,6 +108,72 @@ def check_pieces(c):
         raise Violation("%s:piecewise!=reference" % tag, exp_ref, got)
 
 
+def start(h, name, p):
+    if name in MD:
+        guard(h.initstate)
+    elif name in BLAKES:
+        guard(h.initstate, salt=p.get("salt", 0))
+    else:
+        guard(h.initstate, **b2kwargs(p))
+
+
+def check_streams(c):
+    """several streams on TWO objects of one class, taken up alternately: a stream is (parameters, pieces, final piece or
+    None = abandoned without a final piece); every finished stream gives the one-shot digest of its own message and the
+    bit counter follows its own pieces, whatever was streamed before on the same object or meanwhile on the other one"""
+    name = c["hash"]
+    objs = [guard(make, name), guard(make, name)]
+    progress = [None, None]          # per object: [stream, next piece index, bits fed]
+    queue = list(c["streams"])
+    turn = 0
+    for step in c["schedule"] + (0, 1) * 40:
+        o = step % 2
+        if progress[o] is None:
+            if not queue:
+                if progress[1 - o] is None:
+                    break
+                continue
+            progress[o] = [queue.pop(0), 0, 0]
+            start(objs[o], name, progress[o][0]["params"])
+        st_, i, fed = progress[o]
+        h = objs[o]
+        if i < len(st_["pieces"]):
+            guard(h.update, st_["pieces"][i])
+            fed += 8 * len(st_["pieces"][i])
+            if h.padmethod.bitcnt != fed:
+                raise Violation("%s:streams:bitcnt-after-piece" % kindof(name), fed, h.padmethod.bitcnt)
+            progress[o] = [st_, i + 1, fed]
+            continue
+        progress[o] = None
+        if st_["last"] is None:
+            continue                 # abandoned: the next stream on this object starts with initstate()
+        whole = b"".join(st_["pieces"]) + st_["last"]
+        got = guard(h.update, st_["last"], padding=True)
+        exp = reference(name, whole, st_["params"])
+        if got != exp:
+            raise Violation("%s:streams:piecewise!=reference" % kindof(name), exp, got)
+
+
+def streams_strategy(tier):
+    def for_hash(name):
+        B = blockbytes(name)
+        piece = gen.uint(0, 2).flatmap(lambda k: gen.blob(k * B))
+        if name in BLAKES:
+            w = 64 if int(name[5:]) > 256 else 32
+            par = gen.pick((1, st.just({"salt": 0})), (1, gen.nbits(4 * w).map(lambda s_: {"salt": s_})))
+        elif name in BLAKE2:
+            full = 64 if name == "blake2b" else 32
+            par = gen.pick((1, st.just({})), (1, gen.uint(1, full).map(lambda o: {"outlen": o})))
+        else:
+            par = st.just({})
+        stream = st.builds(lambda ps, l_, ab, p: {"params": p, "pieces": tuple(ps), "last": None if ab == 0 and ps else l_},
+                           st.lists(piece, min_size=0, max_size=3), gen.blob_of(gen.length(B, 1)), gen.uint(0, 3), par)
+        return st.builds(lambda ss, sch: {"hash": name, "streams": tuple(ss) + ({"params": {}, "pieces": (bytes(B),), "last": b"end"},) * 2,
+                                          "schedule": tuple(sch)},
+                         st.lists(stream, min_size=2, max_size=4), st.lists(gen.uint(0, 1), min_size=0, max_size=16))
+    return st.sampled_from(ALL).flatmap(for_hash)
+
+
 def kindof(name):
     return "md/sha" if name in MD else "blake" if name in BLAKES else "blake2"
 
@@ -222,6 +288,13 @@ FACETS = [
           shards={"quick": 12, "thorough": 32},
           nontrivial=lambda c: len(c["pieces"]) >= 1, classify=classify,
           rule="1..6 (12) pieces of 0..6 blocks, final 0..3 blocks with boundary residues, random salts / BLAKE2 outlen, salt, personalisation"),
+    Facet("stream-sequences", check_streams, strategy=streams_strategy, budget={"quick": 800, "thorough": 15000},
+          shards={"quick": 12, "thorough": 32}, nontrivial=lambda c: True,
+          classify=lambda c: (kindof(c["hash"]), "has abandoned stream" if any(s_["last"] is None for s_ in c["streams"]) else "all finished",
+                              "interleaved" if len(set(c["schedule"])) > 1 else "one object at a time"),
+          rule="4..6 streams (0..3 pieces of 0..2 blocks + final piece, a quarter abandoned before the final piece) started one after the "
+               "other with initstate() on TWO objects of one class that take turns by a generated schedule; every finished stream == "
+               "independent reference, bit counter checked after every piece"),
     Facet("nilsimsa-cuts-exhaustive", check_nilsimsa, cases=nilsimsa_cases, exhaustive=True, distinct=True,
           nontrivial=lambda c: len(c["data"]) >= 2, classify=lambda c: ("cuts=%d" % len(c["cuts"]),),
           shards={"quick": 4, "thorough": 8},
